@@ -298,7 +298,11 @@ def nuts(n_iter,
         if ii % info_freq == 0 and ii < n_iter:
             logger.info("NUTS: Iterations performed: {}/{}...".format(ii, n_iter))
 
-    info_str = "NUTS: Acceptance ratio: {:.3f}".format(float(n_iter - n_adapt) / n_total)
+    info_str = "NUTS: Acceptance ratio: "
+    if n_total > 0:
+        info_str += "{:.3f}".format(float(n_iter - n_adapt) / n_total)
+    else:  # no proposals were made after the warmup
+        info_str += "not available"
     if n_outside > 0:
         info_str += ". After warmup {} proposals were outside of the region allowed by priors " \
                     "and rejected, decreasing acceptance ratio.".format(n_outside)
